@@ -67,14 +67,14 @@ PROPS = {
     },
     "C15": {
         "lean": ["C15"],
-        "required": ["C15.c15_bandwidth_total", "C15.c15_bandwidth_unitless", "C15.c15_bandwidth_monotone", "C15.c15_units_ordered", "C15.c15_unit_table"],
+        "required": ["C15.c15_bandwidth_total", "C15.c15_bandwidth_unitless", "C15.c15_bandwidth_monotone", "C15.c15_units_ordered", "C15.c15_unit_table", "C15.c15_stored_filter_total", "C15.c15_stored_filter_range_loop_panics"],
         "rule": "(1) parseBandwidth on the product of 32 numeric forms x 28 unit spellings x 3 paddings, plus random well-formed / near-valid / raw-byte / long-digit strings: "
                 "outcome (ok value | err | panic) compared with the Lean model; the value where float64 is exact (< 2^52 and equal to the big.Rat floor), the class elsewhere; "
                 "(2) monotone unit ladders B<K<M<G<T on the implementation; (3) monitor-only fuzz under recover of convertPod + pod-networks parsers, NUMA hints + RequestNetworkIndex, "
-                "MergeConfigAndUnmarshal/Populate/Validate, parseResourceID, BuildIPNet/ToIPSet/ToIPNetSet. non-trivial = accepted bandwidth value; distinct = distinct op line.",
+                "MergeConfigAndUnmarshal/Populate/Validate, parseResourceID, BuildIPNet/ToIPSet/ToIPNetSet; (4) stored records (0-5 items, current and old format, attached / vanished interfaces) through the daemon's real start-up filter, outcome (kept items | panic) compared with Model/StoredRec.lean whose loop shape is regenerated from the source. non-trivial = accepted bandwidth value; distinct = distinct op line.",
         "technique": "Lean 4 totality / acceptance / monotonicity theorems over a rune-level model of parseBandwidth (slice panics modelled) with a regenerated guard fact; differential correspondence; recover-based search on other parsers",
         "level_text": "Theorem: for every rune string and every letter/space/upper-case table, parseBandwidth does not panic (given the regenerated fact that the i<0 guard is present); digit strings are accepted as bytes; "
-                      "values are monotone in the unit multiplier and the multipliers are ordered. The other user-input parsers (JSON annotations, NUMA hints, ConfigMap merge, stored ids, IP sets) are only searched for panics, not proved: partial.",
+                      "values are monotone in the unit multiplier and the multipliers are ordered. Theorem: no stored record makes the start-up filter (filterENINotFound) index out of range (given the regenerated fact that the loop re-reads the slice length; the range-loop variant is proved to panic on a two-item record). The other user-input parsers (JSON annotations, NUMA hints, ConfigMap merge, stored ids, IP sets) are only searched for panics, not proved: partial.",
         "level_note": "Trusted: Lean kernel; Model/Bandwidth.lean hand-written, ParseFloat modelled on letter-free input only (sign, digits, one dot) with exact rational arithmetic - float64 rounding and the float->uint64 conversion above 2^63 are outside the model; "
                       "non-ASCII input is outside the driver's domain (the totality theorem itself is table-independent). Panics inside encoding/json, yaml, strconv, net are library behaviour, searched not proved.",
         "assumptions": ["strconv.ParseFloat accepts exactly sign/digits/one dot on letter-free input and never panics", "encoding/json, net.ParseCIDR, jsonpatch do not panic"],
@@ -208,15 +208,19 @@ PROPS["C04"] = {
     "design_ref": "DESIGN.md §4 C04",
     "timeout_quick": 1200, "timeout_thorough": 5400,
 }
+_SR_RULE = ("Plus the start-up filter between the stored records and the pool (filterENINotFound through storage List -> getPodResources, hook VerifLoadPodResources): "
+    "stored records of 0-5 items, eniIp or another type, naming their interface by eni_id (one of 0-2 attached interfaces, or one that is gone) or - old format - by the MAC in front "
+    "of the id (attached / gone / id without a dot / empty id); what is handed on is compared with Model/StoredRec.lean (op sr.filter); monitors: panic, item of an attached interface dropped.")
 PROPS["C05"] = {
     "lean": ["C05"],
     "required": ["C05.c05_invariant_all_histories", "C05.c05_acknowledged_exclusive", "C05.c05_add_never_takes_recorded",
                  "C05.c05_restart_keeps_acknowledged", "C05.c05_restart_frees_unrecorded", "C05.c05_restart_pool_is_cloud",
                  "C05.c05_crash_before_write", "C05.c05_crash_after_write", "C05.c05_ack_add_recorded", "C05.c05_store_mirror",
-                 "C05.c05_kill_durable", "C05.c05_failed_repeat_keeps_address"],
-    "rule": _DW_RULE + " Plus SIGKILL runs: a writer process opens the database as the builder does and performs a seed-determined Put/Delete stream, acknowledging each write; it is killed at a random instant; the file (read with bolt directly) must equal the state after the acknowledged prefix or one more write, and the reopened store must list exactly the file.",
+                 "C05.c05_kill_durable", "C05.c05_failed_repeat_keeps_address",
+                 "C05.c05_startup_filter_sublist", "C05.c05_startup_filter_keeps_attached"],
+    "rule": _DW_RULE + " Plus SIGKILL runs: a writer process opens the database as the builder does and performs a seed-determined Put/Delete stream, acknowledging each write; it is killed at a random instant; the file (read with bolt directly) must equal the state after the acknowledged prefix or one more write, and the reopened store must list exactly the file. " + _SR_RULE,
     "technique": "Lean 4: invariant (bound / recorded / no-share / distinct keys) proved by induction over all histories of requests, GC passes, restarts and crash points; store model with cut points; differential correspondence incl. real restarts from the bolt file and SIGKILL of a writer process",
-    "level_text": "Theorems: after every history of good events the invariant holds, hence every recorded address in the pool is bound to its pod and no two records name one address; restart rebinds every recorded address the cloud still reports and frees every unrecorded one; a crash before the database write leaves no trace, after it equals restart-after-completion; an acknowledged ADD is recorded; the store's disk-then-memory order makes every cut point reopen to the acknowledged prefix or one more write. bolt's own fsync/rollback behaviour is exercised by the SIGKILL runs, not proved: partial.",
+    "level_text": "Theorems: after every history of good events the invariant holds, hence every recorded address in the pool is bound to its pod and no two records name one address; restart rebinds every recorded address the cloud still reports and frees every unrecorded one; a crash before the database write leaves no trace, after it equals restart-after-completion; an acknowledged ADD is recorded; the store's disk-then-memory order makes every cut point reopen to the acknowledged prefix or one more write; the start-up filter hands every stored item of an attached interface (named by eni_id, or by the MAC of an old-format id) on to the pool and invents nothing. bolt's own fsync/rollback behaviour is exercised by the SIGKILL runs, not proved: partial.",
     "level_note": "Trusted: Lean kernel; bbolt's transactional commit (validated by SIGKILL runs, process kill only - no power-loss simulation); fake cloud. The history theorem excludes the repaired defect 0103396 (a failing ADD keeping what it took), which is proved to break the invariant on a concrete witness; the other repaired defect 529efcf (a failing repeat ADD releasing an acknowledged address) is covered by a witness theorem.",
     "assumptions": _DW_ASSUME,
     "trusted_base": _DW_TRUST + ["bbolt (github.com/boltdb/bolt) commit/recovery"],
